@@ -1,6 +1,6 @@
 from ..props import prop
 
-# Ten random-workload drivers plus the witness driver (one translation unit each) so that they compile in parallel; every driver shares drivers/c17/typed.hpp.
+# Eleven random-workload drivers plus the witness driver (one translation unit each) so that they compile in parallel; every driver shares drivers/c17/typed.hpp.
 # -g1 keeps line tables for sanitizer reports and drops variable tracking (the drivers are template-heavy: ~30 types x 5 formats each).
 _XF = "-g1"
 
@@ -29,6 +29,9 @@ prop("C17", level="exploration",
                 "Every t is executed under ASan+UBSan through both routes in JSON text, CBOR, MessagePack, UBJSON and BSON: (1) decode_F<T>(encode_F(t)) == t; (2) json j(t), j.as<T>() == t, decode_F<T>(encode_F(j)) == t; "
                 "(3) encode_F(t) and encode_F(j), both decoded to basic_json by the same decoder, are structurally equal ignoring member order (strict comparer, not operator==); (4) try_encode_F / try_decode_F<T> / try_as<T> "
                 "agree with the throwing variants; stage 'overloads' repeats this for one representative type per decode_traits/encode_traits path through the std::ostream / std::istream / iterator-range overloads. "
+                "Stage 'crosselem': a vector<S> (S in int8..int32, uint8..uint32, float, half; boundary-biased elements) is encoded as CBOR with typed arrays on and off, MessagePack, UBJSON and BSON and decoded into "
+                "vector<D> for every wider element type D that represents all values of S exactly, through decode_X<vector<D>> from bytes and from a stream (typed-array fast paths) and through "
+                "decode_X<json>(bytes).as<vector<D>>(): all must equal the element-wise conversion of the source (signature typed/cross-element-type/<format>/<route>/<S>-to-<D>). "
                 "Stage 'wide' additionally sends the std::wstring types through the wchar_t routes: encode_json into std::wstring / decode_json from it, wjson(t) / wjson::as<T>(), try_ variants, the wide text compared (after the "
                 "monitor's own UTF-32 -> UTF-8 conversion) with the narrow basic_json value, narrow text widened by the monitor and decoded by the wide decoder and vice versa, and one shape damage per value through both wide routes. "
                 "Shape mismatch injection is type-directed: json(t) is damaged at exactly one position chosen by walking T (value of a kind that T's position cannot convert, mandatory member removed, object for a "
@@ -64,6 +67,6 @@ prop("C17", level="exploration",
                   "documented per-format restrictions transcribed in fmt_domain() / rt_bson() of drivers/c17/typed.hpp",
                   "the C17_SHARED_REV static_assert in the drivers is a leftover of the time when the build cache did not hash drivers/c17/*; it no longer needs bumping"],
      stages=[_st("scalars", 200000), _st("special", 144000), _st("wide", 80000), _st("variants", 128000), _st("sequences", 112000), _st("fixed", 96000), _st("maps", 112000),
-             _st("classes", 64000), _st("poly", 40000), _st("overloads", 96000),
+             _st("classes", 64000), _st("poly", 40000), _st("overloads", 96000), _st("crosselem", 70000),
              dict(name="witnesses", driver="c17_witness", flagset="asan", extra_flags=_XF, quick=N_WITNESSES, thorough=N_WITNESSES, args=["--mode", "witnesses"],
                   workers_quick=1, workers_thorough=1)])
